@@ -685,6 +685,13 @@ func (n *Node) getBestFastForwardResponse() *net.FastForwardResponse {
 	var bestResponse *net.FastForwardResponse
 	maxBlock := 0
 
+	// only a block ahead of the node's own last block is worth resetting to; a
+	// node that was bootstrapped from its database may already be at or past
+	// every anchor its peers offer
+	if last := n.GetLastBlockIndex(); last > maxBlock {
+		maxBlock = last
+	}
+
 	for _, p := range n.core.peerSelector.getPeers().Peers {
 		start := time.Now()
 		resp, err := n.requestFastForward(p.NetAddr)
